@@ -6,6 +6,7 @@ import (
 	"context"
 	"errors"
 	"fmt"
+	"os"
 	"sync"
 	"testing"
 	"testing/synctest"
@@ -41,11 +42,34 @@ func (v *verdict) err() error {
 	return nil
 }
 
+// runBubble runs f inside a synctest bubble with a real-time watchdog.  A
+// bubble that cannot reach quiescence (synctest.Wait never returns) means a
+// goroutine is blocked on something that is not a harness gate, e.g. a lock
+// held across a construction: the cases take milliseconds, so 30 s of real
+// time without finishing is reported as a violation and the process exits (the
+// stuck goroutines cannot be cancelled, so shrinking is not attempted).
+func runBubble[C any](kind string, c C, what string, f func()) {
+	done := make(chan struct{})
+	go func() {
+		defer close(done)
+		synctest.Run(f)
+	}()
+	timer := time.NewTimer(30 * time.Second)
+	defer timer.Stop()
+	select {
+	case <-done:
+	case <-timer.C:
+		vp.RecordFailure(kind, c, fmt.Errorf("the scenario did not reach quiescence within 30 s of real time (normally milliseconds): %s", what))
+		fmt.Println("VP-HANG", kind)
+		os.Exit(1)
+	}
+}
+
 func checkOnceBubble(c OnceCase) error {
 	v := &verdict{}
 	concurrentArrivals := false
 	var cmu sync.Mutex
-	synctest.Run(func() {
+	runBubble("c17.once-bubble", c, "a goroutine is blocked in Get on something other than its own key's construction gate (a slow construction of one key blocks Get of another)", func() {
 		var mu sync.Mutex
 		cons := make([]int, c.K)
 		gates := make([]chan struct{}, c.K)
@@ -189,7 +213,7 @@ func checkSemaBubble(c SemaCase) error {
 	v := &verdict{}
 	contended := false
 	var cmu sync.Mutex
-	synctest.Run(func() {
+	runBubble("c17.sema-bubble", c, "Acquire or Release is blocked on something other than the semaphore's slots or the context", func() {
 		s := syncutil.NewChanSemaphore(uint(c.Cap))
 		var mu sync.Mutex
 		holders := 0
